@@ -1,6 +1,7 @@
 """Generic run of one property: proof gate, corpus, correspondence + direct oracle,
 decision, evidence (DESIGN.md section 6)."""
 import collections
+import importlib
 import json
 import multiprocessing
 import os
@@ -38,8 +39,39 @@ def impl_batch(P, pid, cases, workers):
         return pool.map(_work, cases, chunksize=max(1, len(cases) // (workers * 8)))
 
 
+def _run_directed(P, case):
+    try:
+        return P.run_directed(case)
+    except common.Infra:
+        raise
+    except BaseException as e:  # noqa: B902
+        import traceback
+        raise common.Infra("directed scenario crashed: %r\n%s" % (e, traceback.format_exc()[-1200:]))
+
+
 def evaluate(P, pid, tagged_cases, workers, acc):
     """Run model + implementation on the cases. Returns (violations, tie_breaks)."""
+    # directed scenarios: hand-written programs run on the implementation only, judged directly against the property's
+    # statement (no model counterpart: they cover shapes the executable models do not express)
+    directed = [(t, c) for t, c in tagged_cases if isinstance(c, dict) and c.get("dom") == "directed"]
+    tagged_cases = [(t, c) for t, c in tagged_cases if not (isinstance(c, dict) and c.get("dom") == "directed")]
+    dviol = []
+    for tag, case in directed:
+        res = _run_directed(P, case)
+        acc["evaluations"] += 1
+        acc["by_tag"][tag] += 1
+        acc["keys"].add(("directed", case.get("name"), repr(sorted((k, repr(v)) for k, v in case.items()))))
+        acc["dist"]["directed:" + str(case.get("name"))] += 1
+        if res.get("fails"):
+            dviol.append({"tag": tag, "case": case, "fails": res["fails"], "cls": res.get("cls", "unclassified"), "impl": res,
+                          "model": None, "tie_ok": True})
+    if not tagged_cases:
+        return dviol, []
+    v_, t_ = _evaluate_modelled(P, pid, tagged_cases, workers, acc)
+    return dviol + v_, t_
+
+
+def _evaluate_modelled(P, pid, tagged_cases, workers, acc):
     cases = [c for _t, c in tagged_cases]
     expand = getattr(P, "driver_inputs", None)
     flat, spans = [], []
@@ -91,6 +123,11 @@ def _new_acc():
 
 
 def still_fails(P, case):
+    if isinstance(case, dict) and case.get("dom") == "directed":
+        res = _run_directed(P, case)
+        if res.get("fails"):
+            return {"case": case, "fails": res["fails"], "cls": res.get("cls", "unclassified"), "impl": res, "model": None}
+        return None
     expand = getattr(P, "driver_inputs", None)
     mos = common.run_driver(expand(case) if expand else [case])
     if any("error" in m for m in mos):
@@ -155,12 +192,46 @@ def run(P, pid, tier, seed, skip_gate=False):
             violations.append(f)
         acc["evaluations"] += extra_info.get("evaluations", 0)
 
+    # neighbour streams: a sample of the cases of related properties, run with the neighbour's model tie and judged by the
+    # neighbour's oracle (DESIGN.md 12.7).  Only oracle failures count here (a broken tie of the neighbour is reported
+    # by the neighbour's own check); the neighbour's listed findings are skipped (its own check prints them).
+    neighbour_info = {}
+    for nb in getattr(P, "NEIGHBOURS", []):
+        lender = nb["from"]
+        L = importlib.import_module("props." + lender)
+        lrng = common.rng_for(pid + "/neighbour/" + lender, seed)
+        pool = [(t, c) for t, c in L.cases("quick", lrng) if not nb.get("tags") or any(t.startswith(x) for x in nb["tags"])]
+        limit = nb.get("limit", 400) * (5 if thorough else 1)
+        if len(pool) > limit:
+            keep = set(lrng.sample(range(len(pool)), limit))
+            pool = [x for i, x in enumerate(pool) if i in keep or (isinstance(x[1], dict) and x[1].get("dom") == "directed")]
+        pool = [("corpus:" + name, c["case"] if "case" in c else c) for name, c in common.load_corpus(lender)] + pool
+        lacc = _new_acc()
+        lvs, _ltb = evaluate(L, lender, pool, workers, lacc)
+        lknown = set(k["class"] for k in common.load_known_findings(lender))
+        skipped = 0
+        for v in lvs:
+            if v["cls"] in lknown:
+                skipped += 1
+                continue
+            v["lender"] = lender
+            v["tag"] = "neighbour:%s:%s" % (lender, v.get("tag"))
+            violations.append(v)
+        acc["evaluations"] += lacc["evaluations"]
+        acc["validated"] += lacc["validated"]
+        for t, n in lacc["by_tag"].items():
+            acc["by_tag"]["neighbour:%s:%s" % (lender, t)] += n
+        neighbour_info[lender] = {"cases": lacc["evaluations"], "why": nb.get("why", ""), "listed_findings_of_neighbour_skipped": skipped,
+                                  "distinct_nontrivial": len(lacc["keys"])}
+
     code = 0
     lines = []
     reported = set()
     unknown = []
     for v in violations:
-        if v["cls"] in known_classes:
+        if v.get("lender"):
+            unknown.append(v)
+        elif v["cls"] in known_classes:
             if not v.get("tie_ok", True):
                 # a listed finding, but the implementation no longer behaves as the model of the code says
                 tie_breaks.append({"tag": v.get("tag"), "case": v["case"], "impl": "see replay", "model": "known-finding class %s" % v["cls"]})
@@ -192,13 +263,15 @@ def run(P, pid, tier, seed, skip_gate=False):
     replay_path = None
     if unknown:
         try:
-            v = shrink(P, unknown[0])
+            v = shrink(importlib.import_module("props." + unknown[0]["lender"]) if unknown[0].get("lender") else P, unknown[0])
+            if unknown[0].get("lender"):
+                v["lender"] = unknown[0]["lender"]
         except Exception:  # noqa: B902 - shrinking is best effort
             v = unknown[0]
         replay_path = common.write_replay(pid, {
             "property": pid, "kind": "failing-input", "class": v["cls"], "fails": v["fails"], "case": v["case"],
             "impl": v.get("impl"), "model": v.get("model"), "seed": seed, "tier": tier,
-            "also": len(unknown) - 1,
+            "also": len(unknown) - 1, "lender": v.get("lender"),
         })
         lines.append("VIOLATION property=%s replay=%s" % (pid, replay_path))
         code = 1
@@ -237,6 +310,8 @@ def run(P, pid, tier, seed, skip_gate=False):
     }
     if extra_info is not None:
         coverage["extra"] = extra_info.get("info")
+    if neighbour_info:
+        coverage["neighbour_streams"] = neighbour_info
     common.write_evidence(pid, tier, seed, coverage, wall, len(unknown),
                           assumptions=getattr(P, "ASSUMPTIONS", []))
     for l in lines:
@@ -266,6 +341,8 @@ def replay(P, pid, path):
             bad += pi != pm
         return 1 if bad or not cases else 0
     case = payload["case"]
+    if payload.get("lender"):
+        P = importlib.import_module("props." + payload["lender"])     # a case of a neighbour stream: its module runs and judges it
     r = still_fails(P, case)
     if r is None:
         print("replay does not fail on the current tree")
